@@ -27,6 +27,7 @@ package step_invariant
 //@   requires u != nil && u.next != nil && u.vectorPool != nil && ctx != nil
 //@   requires len(u.cachedVector.SampleIDs) == len(u.cachedVector.Samples) && allocated(u.cachedVector.Samples) && allocated(u.cachedVector.SampleIDs)
 //@   panics may
+//@   ensures[C15] child-error-surfaces: ncalls("model.VectorOperator.Next") >= 1 && callres("model.VectorOperator.Next", 1, 1) != nil ==> result != nil
 //@   assigns step_invariant.stepInvariantOperator.cachedVector, step_invariant.stepInvariantOperator.cacheVectorOnce, ghost ended
 //@   ensures allocated(u.cachedVector.Samples) && allocated(u.cachedVector.SampleIDs)
 //@   ensures[C06,C07] pinned-child-evaluated-once: old(u.cacheVectorOnce) != 0 ==> ncalls("model.VectorOperator.Next") == 0
@@ -41,6 +42,8 @@ package step_invariant
 //@   requires ctx != nil && u != nil && u.next != nil && u.vectorPool != nil && u.step >= 1 && u.stepsBatch >= 1
 //@   requires len(u.cachedVector.SampleIDs) == len(u.cachedVector.Samples) && allocated(u.cachedVector.Samples) && allocated(u.cachedVector.SampleIDs)
 //@   panics may
+//@   ensures[C15] child-error-surfaces: ncalls("model.VectorOperator.Next") >= 1 && callres("model.VectorOperator.Next", 1, 1) != nil ==> result1 != nil
+//@   ensures[C15] cache-error-surfaces: ncalls("step_invariant.(*stepInvariantOperator).cacheInputVector") >= 1 && callres("step_invariant.(*stepInvariantOperator).cacheInputVector", 1) != nil ==> result1 != nil
 //@   ensures[C18] error-means-no-batch: result1 != nil ==> isnil(result0)
 //@   ensures[C07,C18] batch-size: result1 == nil && !isnil(result0) && u.cacheResult ==> 1 <= len(result0) && len(result0) <= u.stepsBatch
 //@   ensures[C06,C07,C18] one-vector-per-step: result1 == nil && !isnil(result0) && u.cacheResult ==> forall k in 0..len(result0) ::
